@@ -1,7 +1,7 @@
 SPECIFICATION Spec
 CONSTANTS
   Shapes <- ShapesC40t
-  MaxBlocks = 4
+  MaxBlocks = 3
   Paths <- AllPaths
   Muts <- OnlyValid
   PreKinds <- NoKinds
